@@ -34,7 +34,8 @@ META = {
             "TSP and 1x1 / 2x2 QAP instances, all-equal distance matrices so "
             "that the FEA table is addressed at its last entry, permutations "
             "of length 1 and 2 for swap_distance, two-team and odd-team game "
-            "encodings. A case is non-trivial when it comes from the "
+            "encodings, sequences of generated network controllers that "
+            "differ only in the number of outputs. A case is non-trivial when it comes from the "
             "catalogue or is non-trivial under the rule of the property whose "
             "generator produced it; distinct = distinct (source, case) pairs",
     "assumptions": [
@@ -419,10 +420,40 @@ def check_misc(ctx: Ctx, case: dict) -> None:
         GamePlanLength(inst).evaluate(y)
 
 
+def ann_catalogue() -> list[dict]:
+    """Sequences of requests for generated network controllers that differ
+    only in the number of outputs (larger first): a controller must never
+    write more outputs / read more parameters than its caller asked for."""
+    cases = []
+    for sd in (2, 3, 4, 6):
+        for layers in ([], [2], [3, 3], [sd, sd], [4, 2, 3]):
+            cases.append({"kind": "ann", "state_dims": sd, "layers": layers,
+                          "controls": [3, 1, 2, 1]})
+            cases.append({"kind": "ann", "state_dims": sd, "layers": layers,
+                          "controls": [1, 4, 1]})
+    return cases
+
+
+def check_ann(ctx: Ctx, case: dict) -> None:
+    import numpy as np
+    from moptipyapps.dynamic_control.controllers.ann import make_ann
+    from vf import oracle_dc
+    sd, layers = case["state_dims"], case["layers"]
+    for cd in case["controls"]:
+        ctrl = make_ann(sd, cd, list(layers))
+        # the caller sizes its arrays for what it asked for
+        n_par = oracle_dc.ann_param_count(sd, cd, layers)
+        params = np.linspace(-1.0, 1.0, n_par)
+        out = np.zeros(cd)
+        state = np.linspace(0.5, 1.5, sd)
+        ctrl.controller(state, 0.0, params, out)
+        require(bool(np.all(np.isfinite(out))), f"non-finite output {out}")
+
+
 def check_catalogue(ctx: Ctx, case: dict) -> None:
     kind = case["kind"]
     fn = {"ttp": check_ttp, "bp": check_bp, "mat": check_mat,
-          "swap": check_misc, "game": check_misc}[kind]
+          "swap": check_misc, "game": check_misc, "ann": check_ann}[kind]
     fn(ctx, case)
 
 
@@ -454,7 +485,7 @@ def run(ctx: Ctx) -> None:
     if not numba.config.BOUNDSCHECK:
         raise RuntimeError("NUMBA_BOUNDSCHECK is not active")
     cat = ttp_catalogue() + bp_catalogue() + mat_catalogue() \
-        + misc_catalogue()
+        + misc_catalogue() + ann_catalogue()
     n = ctx.each("catalogue", ctx.my_share(cat), SUBS["catalogue"],
                  max_violations=3)
     ctx.rec.subreport("catalogue", cases_run=n,
